@@ -382,3 +382,49 @@ Definition step_instr (cpu : CPU) : CPU :=
   end.
 
 End WithUnspec.
+
+(* ---- interrupts: what happens at the start of a Step when a request is pending ---- *)
+Section Interrupts.
+Variable u : Unspec.
+
+(* acceptance pushes the address of the next instruction to execute, low byte first *)
+Definition accept_nmi (cpu : CPU) : CPU :=
+  let cpu := push16_lowfirst cpu (g_PC cpu) in
+  s_IFF1 (s_IFF2 (s_PC cpu 102) (g_IFF1 cpu)) false.
+Definition disable_both (cpu : CPU) : CPU := s_IFF2 (s_IFF1 cpu false) false.
+Definition accept_im1 (cpu : CPU) : CPU :=
+  disable_both (s_PC (push16_lowfirst cpu (g_PC cpu)) 56).
+Definition accept_im2 (cpu : CPU) (v : Z) : CPU :=
+  let cpu := push16_lowfirst cpu (g_PC cpu) in
+  let '(cpu, a) := rd16 cpu (mk16 (g_IR_Hi cpu) (Z.land v 254)) in
+  disable_both (s_PC cpu a).
+(* mode 0 as this emulator realises it: the supplied bytes are laid over memory at PC for one
+   instruction (the defects of this scheme are stated in Props/C07 as refuted theorems) *)
+Definition im0_overlay (pc : Z) (d : list Z) : im0data := mk_im0data pc (u16 (pc + u16 (len_Z d - 1))) d.
+Definition accept_im0 (cpu : CPU) (d : list Z) : CPU :=
+  let saved := g_Memory cpu in
+  let cpu := s_Memory cpu (Im0Mem (im0_overlay (g_PC cpu) d)) in
+  let cpu := step_instr u cpu in
+  disable_both (s_Memory cpu saved).
+
+Definition NMI_type := 0.
+(* Some cpu' = the request was accepted (and is consumed); None = refused, the program runs *)
+Definition try_interrupt (cpu : CPU) (irq : Interrupt) : option CPU :=
+  if Interrupt_Type irq =? NMI_type then Some (accept_nmi cpu)
+  else if negb (g_IFF1 cpu) then None
+  else match g_IM cpu with
+       | 0 => Some (match Interrupt_Data irq with [] => cpu | _ => accept_im0 cpu (Interrupt_Data irq) end)
+       | 1 => Some (accept_im1 cpu)
+       | 2 => Some (match Interrupt_Data irq with [] => cpu | v :: _ => accept_im2 cpu v end)
+       | _ => None
+       end.
+Definition spec_step (cpu : CPU) : CPU :=
+  match g_Interrupt cpu with
+  | None => step_instr u cpu
+  | Some irq =>
+    match try_interrupt cpu irq with
+    | Some cpu' => s_Interrupt cpu' None
+    | None => step_instr u cpu
+    end
+  end.
+End Interrupts.
